@@ -1572,9 +1572,28 @@ def malformed_calls(rng, h):
         ('unknown-node-pick', 'pick_iter', [bogus]),
     ]
     used = [nm for nm in names if any(t[0] == h.b.vars[nm] for t in h.b._succ.values() if t[1] is not None)]
+    unused = [nm for nm in names if nm not in used]
+    extra = []
     if used:
-        kinds.append(('undeclare-used', 'undeclare', [rng.choice(used)]))
-    return rng.choice(kinds)
+        extra.append(('undeclare-used', 'undeclare', [rng.choice(used)]))
+    # a request that is partly valid: some removable variables next to one that is in use or
+    # unknown (whatever order a set of the names is visited in, nothing may be removed)
+    if unused:
+        some_unused = rng.sample(unused, rng.randint(1, len(unused)))
+        bad = rng.choice(used) if used and rng.random() < 0.7 else 'nosuch'
+        mixed = some_unused + [bad]
+        rng.shuffle(mixed)
+        extra.append(('undeclare-mixed', 'undeclare', [','.join(mixed)]))
+    # find_or_add with exactly one unknown successor, in either position, next to a valid one
+    valid = [x for x in h.pool if abs(x) in h.b._succ]
+    if valid and n:
+        w = rng.choice(valid)
+        extra.append(('unknown-high-foa', 'foa', [0, w, rng.choice([bogus, -bogus])]))
+        extra.append(('unknown-low-foa', 'foa', [0, rng.choice([bogus, -bogus]), abs(w)]))
+        extra.append(('unknown-high-foa-terminal', 'foa', [0, rng.choice([1, -1]), bogus]))
+    if extra and rng.random() < 0.3:
+        return rng.choice(extra)
+    return rng.choice(kinds + extra)
 
 
 def check_C17(ctx):
@@ -1588,6 +1607,10 @@ def check_C17(ctx):
         if k % 6 == 5:
             names = rng.sample(WIDE_NAMES, rng.randint(9, 10))
         dyn = rng.random() < 0.4
+        if rng.random() < 0.5:
+            # a few more declared variables, so that some stay unused (removable)
+            names = names + [f'u{i}' for i in range(rng.randint(1, 3))]
+            rng.shuffle(names)
         h = History(ctx, names)
         if dyn:
             h.s.op(0, 'configure', 1)
